@@ -3,13 +3,13 @@ import os
 
 from framework import scale, CaseResult, text_points
 from props import c02
-from props.diskcommon import (FULL, argv_sources, compare_action, dmodel_outcome, expected_entry, ext_of, fsck, gen_dcontent, model_srcs, run_disk, setup_sources)
+from props.diskcommon import (FULL, argv_sources, compare_action, dmodel_outcome, expected_entry, ext_of, fsck, gen_dcontent, gen_third_party, model_srcs, run_disk, setup_sources, write_third_party)
 from props.tapecommon import CaseDir
 
 GEN_FILES = ["GenDisk"]
 RULE = ("one create or add invocation whose sources interleave files (sizes from 0 to larger than a side; batches longer than a catalogue) and --eos markers in every "
         "position, on a fresh image or on one partially filled by a previous invocation, catalogue names possibly given twice (other directory, other letter case, 'x.bas' and 'x.bas,a'); both flavours. Oracle on the report and on the image decoded by the extracted Spec: "
-        "files are stored in the order given; --eos moves to the next side; a file refused on side j ('too big') is retried on side j+1 only, never split nor stored twice; "
+        "files are stored in the order given; --eos moves to the next side; a file is refused on a side ('too big') only if it does not fit there (fewer free blocks than it needs, or 112 live catalogue entries - a deleted entry is a free one) and is then retried on side j+1 only, never split nor stored twice; "
         "once the fourth side is passed the remaining sources are dropped, the image is still written and every side is a valid file system; the report's section for side i "
         "lists exactly the files the image gained on side i. signature = (flavour, fresh/partial, number of sides reached, flags {eos, overflow, catalog-overflow, dropped, "
         "bigger-than-side, eos-first, eos-last}); non-trivial = an --eos or an overflow")
@@ -68,10 +68,18 @@ def gen_cases(rng, tier):
         cases.append({"is_fd": is_fd, "pre": None, "verbose": False, "batch": [{"arg": "ba.dat", "content": {"hex": "41"}}, huge, {"eos": "--eos"}, {"arg": "bb.dat", "content": {"hex": "42"}}]})
         cases.append({"is_fd": is_fd, "pre": [{"arg": "pa.dat", "content": {"hex": "41"}}], "verbose": True,
                       "batch": [{"arg": "ba.dat", "content": {"hex": "41"}}, {"eos": "--eos"}, {"eos": "--eos"}, {"eos": "--eos"}, huge, {"eos": "--EOS"}, {"arg": "bb.dat", "content": {"hex": "42"}}]})
+    # a side whose 112 catalogue entries were all used once, some of them deleted since (no never-used entry left): a deleted entry is a free one
+    for is_fd in (True, False):
+        sp = gen_third_party(rng, is_fd=is_fd, nsides=4, max_files=3)
+        sp["sides"][0]["files"] = [{"name": "K%d" % k, "ext": "D", "kind": 1, "flag": 0, "content": {"pat": "41", "len": 100 + k}} for k in range(rng.choice([20, 60, 105]))]
+        sp["sides"][0]["deleted"] = 112 - len(sp["sides"][0]["files"])
+        sp["sides"][0]["spread"] = False
+        cases.append({"is_fd": is_fd, "pre": None, "pre_spec": sp, "verbose": not is_fd,
+                      "batch": [{"arg": "bnew.dat", "content": {"pat": "42", "len": 3000}}, {"arg": "bnew2.txt", "content": {"hex": "43"}}]})
     for is_fd in (True, False):
         cases.append({"is_fd": is_fd, "pre": [{"arg": "a.bas", "content": {"hex": "41"}}], "verbose": is_fd,
                       "batch": [{"arg": "new/a.bas", "content": {"hex": "4242"}}, {"arg": "c.dat", "content": {"hex": "43"}}, {"arg": "new/C.DAT", "content": {"hex": "4444"}}]})
-    return cases, {"random": n, "fixed": 6}
+    return cases, {"random": n, "fixed": 8}
 
 
 def sections(text):
@@ -97,7 +105,18 @@ def run_case(case, ctx):
         raw_prev = None
         dis = bad = None
         before_files = [[], [], [], []]
-        if case["pre"] is not None:
+        free_blocks = [157, 157, 157, 157]
+        live_entries = [0, 0, 0, 0]
+        was_strict = [True, True, True, True]
+        if case.get("pre_spec") is not None:
+            # a partially filled image made by the independent writer: deleted entries, possibly no never-used entry left
+            raw_prev, _ = write_third_party(case["pre_spec"])
+            cd.put(arch, raw_prev)
+            for i, sd in enumerate(fsck(ctx, is_fd, raw_prev)):
+                was_strict[i] = sd["strict"]
+                before_files[i] = [(x["name"], x["ext"], x["content"]) for x in (sd["files"] or [])]
+                free_blocks[i], live_entries[i] = sd["free"], len(sd["files"] or [])
+        elif case["pre"] is not None:
             fs0, _ = setup_sources(cd, case["pre"])
             r0 = run_disk(ctx, is_fd, ["-c", arch] + argv_sources(case["pre"]), cd, timeout=120)
             raw_prev = cd.get(arch)
@@ -105,6 +124,7 @@ def run_case(case, ctx):
                 raise RuntimeError("could not prepare the partially filled image")
             for i, sd in enumerate(fsck(ctx, is_fd, raw_prev)):
                 before_files[i] = [(x["name"], x["ext"], x["content"]) for x in (sd["files"] or [])]
+                free_blocks[i], live_entries[i] = sd["free"], len(sd["files"] or [])
         fs, contents = setup_sources(cd, case["batch"])
         act = "-c" if raw_prev is None else "-r"
         r = run_disk(ctx, is_fd, [act] + (["-v"] if v else []) + [arch] + argv_sources(case["batch"]), cd, timeout=120)
@@ -115,7 +135,9 @@ def run_case(case, ctx):
         else:
             m = dmodel_outcome(ctx.model.call("disk_add", is_fd, v, fs, text_points(arch), raw_prev, model_srcs(case["batch"])))
         dis = compare_action(r, m, cd, after, "inject")
-        f = {"fd" if is_fd else "sd", "partial" if case["pre"] is not None else "fresh"}
+        f = {"fd" if is_fd else "sd", "partial" if raw_prev is not None else "fresh"}
+        if case.get("pre_spec") is not None:
+            f.add("foreign-pre")
         if r.get("status") != 0 or r.get("exc") or raw is None:
             bad = {"invocation failed": [r.get("status"), r.get("exc"), r.get("msg")]}
         else:
@@ -151,10 +173,18 @@ def run_case(case, ctx):
                     if l2 != label or side != cur:
                         bad = {"report out of order": [l2, side], "expected": [label, cur]}
                         break
+                    need = max(1, (max(len(c), 1) + 2039) // 2040)
+                    fits = need <= free_blocks[cur] and live_entries[cur] < 112
                     if outcome == "ok":
                         stored[cur].append((e[0], e[1], c))
+                        free_blocks[cur] -= need
+                        live_entries[cur] += 1
                         break
                     if outcome == "too big":
+                        if fits:
+                            # refusals are exact: enough free blocks and a free (never-used or deleted) catalogue entry means the file is stored here
+                            bad = {"announced too big on a side where it fits": [label, cur], "needs": need, "free blocks": free_blocks[cur], "live entries": live_entries[cur]}
+                            break
                         f.add("overflow")
                         cur += 1
                         if cur >= 4:
@@ -167,8 +197,8 @@ def run_case(case, ctx):
                 bad = {"report lists more files than the sources account for": flat[pos:pos + 3]}
             if bad is None:
                 for i, sd in enumerate(sides):
-                    if not sd["strict"]:
-                        bad = {"fsck_strict rejects side": i}
+                    if not (sd["strict"] if was_strict[i] else sd["read"]):
+                        bad = {"fsck_strict rejects side" if was_strict[i] else "fsck_read rejects side": i}
                         break
                     got = [(x["name"], x["ext"], x["content"]) for x in sd["files"]]
                     gained = list(got)
@@ -196,12 +226,17 @@ def shrink_candidates(case):
         yield dict(case, batch=b[:k] + b[k + 1:])
     if case["pre"] is not None:
         yield dict(case, pre=None)
+    if case.get("pre_spec") is not None:
+        sp = case["pre_spec"]
+        for i, sd in enumerate(sp["sides"]):
+            if len(sd["files"]) > 1:
+                yield dict(case, pre_spec=dict(sp, sides=sp["sides"][:i] + [dict(sd, files=sd["files"][:len(sd["files"]) // 2], deleted=sd.get("deleted", 0) + len(sd["files"]) - len(sd["files"]) // 2)] + sp["sides"][i + 1:]))
     if case["verbose"]:
         yield dict(case, verbose=False)
 
 
 def summarise(case):
-    return {"is_fd": case["is_fd"], "partial": case["pre"] is not None, "batch": [(s.get("eos") or [s["arg"], s["content"].get("len", 0)]) for s in case["batch"]][:8]}
+    return {"is_fd": case["is_fd"], "partial": case["pre"] is not None, "foreign_pre": case.get("pre_spec") is not None, "batch": [(s.get("eos") or [s["arg"], s["content"].get("len", 0)]) for s in case["batch"]][:8]}
 
 
 def violation_class(case, detail):
